@@ -395,7 +395,7 @@ impl<
         Option<Spilled<C, Db::ScanMemberIterator<K>>>,
     ) {
         loop {
-            let staging_snapshot = self.get_staging_snapshot(key);
+            let mut staging_snapshot = self.get_staging_snapshot(key);
             let mut spilled = None;
 
             #[cfg(feature = "verif")]
@@ -409,18 +409,40 @@ impl<
                 .repr
                 .single_flight
                 .wait_or_work(key, || {
+                    // The entry is made visible in the cache *before* it is
+                    // filled, exclusively locked until the fill is done. A
+                    // writer that stages an operation from now on finds the
+                    // entry and applies the operation to it itself (after the
+                    // lock is released); a writer that did not find it has
+                    // staged its operation before the snapshot taken below.
+                    // Filling first and inserting afterwards loses the
+                    // operations staged in between for as long as the entry
+                    // stays cached.
                     let entry =
+                        Arc::new(RwLock::new(Entry::InMemory(C::default())));
+                    let mut guard = entry.write();
+
+                    let inserted =
+                        self.repr.cache.entry(key.clone(), |e| match e {
+                            tiny_lfu::Entry::Vacant(vaccant_entry) => {
+                                vaccant_entry.insert(entry.clone());
+                                true
+                            }
+                            tiny_lfu::Entry::Occupied(_) => {
+                                // another thread inserted an explicit value;
+                                // ours only serves this read
+                                false
+                            }
+                        });
+
+                    if inserted {
+                        staging_snapshot = self.get_staging_snapshot(key);
+                    }
+
+                    *guard =
                         self.fetch_entry(key, &staging_snapshot, &mut spilled);
 
-                    self.repr.cache.entry(key.clone(), |e| match e {
-                        tiny_lfu::Entry::Vacant(vaccant_entry) => {
-                            vaccant_entry.insert(entry.clone());
-                        }
-                        tiny_lfu::Entry::Occupied(_) => {
-                            // Do nothing as another thread inserted an explicit
-                            // value
-                        }
-                    });
+                    drop(guard);
 
                     entry
                 })
@@ -437,7 +459,7 @@ impl<
         key: &K::Key,
         snapshot: &StagingShapshot<K::Element>,
         spilled: &mut Option<Spilled<C, Db::ScanMemberIterator<K>>>,
-    ) -> Arc<RwLock<Entry<C>>> {
+    ) -> Entry<C> {
         let new_set = C::default();
         let mut count = 0;
         let mut iter = self.db.scan_members::<K>(key);
@@ -452,7 +474,7 @@ impl<
                     rest_iterator: iter,
                 });
 
-                return Arc::new(RwLock::new(Entry::TooLarge));
+                return Entry::TooLarge;
             }
         }
 
@@ -463,7 +485,7 @@ impl<
             new_set.remove_element(element);
         }
 
-        Arc::new(RwLock::new(Entry::InMemory(new_set)))
+        Entry::InMemory(new_set)
     }
 }
 
